@@ -224,6 +224,13 @@ namespace pika::split_tuple_detail {
 
         void set_predecessor_done()
         {
+            // Keep the shared state alive until this function returns. As
+            // soon as predecessor_done is set, consumers starting on other
+            // threads are signalled directly from add_continuation; they may
+            // finish and release the last reference to this shared state
+            // while this thread still uses the mutex and the continuations.
+            pika::intrusive_ptr<shared_state> keep_alive{this};
+
             // We reset the operation state as soon as the predecessor
             // is done to release any resources held by it. Any values
             // sent by the predecessor have already been stored in the
